@@ -193,6 +193,18 @@ def part_a(rec, li, n, seed, only=None):
                                     except Exception as e:
                                         rec.violation("single-axis", f"raise:{np.dtype(idt).name}:" + exc_sig(e), dict(case, dtype=np.dtype(idt).name), "array", f"{type(e).__name__}: {e}"[:200])
                                         break
+                                if op in ("min", "max") and fv >= 0:
+                                    # unsigned integers with zeros next to non-zero values
+                                    u_ = (np.abs(base[:-1]) % 200).astype(np.uint8)
+                                    u_[:, ::2] = 0
+                                    try:
+                                        ru_ = getattr(g, op)(xr.DataArray(u_, dims=da.dims), "X", **kw)
+                                        rec.calls += 1
+                                        eu_ = S.ref_stencil(u_.astype(float), fr, to, n, op, rule, fv)
+                                        if not np.array_equal(np.asarray(ru_.values, dtype=float), eu_):
+                                            rec.violation("single-axis", "values:uint8", dict(case, dtype="uint8"), eu_, ru_.values)
+                                    except Exception as e:
+                                        rec.violation("single-axis", "raise:uint8:" + exc_sig(e), dict(case, dtype="uint8"), "array", f"{type(e).__name__}: {e}"[:200])
                                 if op != "interp":
                                     # 64-bit integers beyond 2**53: differences, minima and maxima are exact, not merely to double precision
                                     big_ = (np.arange(2 * m, dtype=np.int64).reshape(2, m) * 2 + 2 ** 55 + 1) * np.array([[1], [-1]], dtype=np.int64)
